@@ -216,6 +216,7 @@ func (r *Reporter) Finish(p *Program) int {
 		cov["repo_functions_total"] = len(p.allRepoFuncs())
 		cov["call_graph"] = p.cgKind
 	}
+	cov["dependence_queries_exhausted"] = depExhausted
 	for k, v := range r.Extra {
 		cov[k] = v
 	}
